@@ -667,6 +667,7 @@ def _inline_prebuilt_callables(program, known: Set[str]) -> List[str]:
     log = []
     for m in program.modules.values():
         cands = {}
+        regexes: Dict[str, ast.AST] = {}  # _RX = re.compile("..") used as _RX.match(x): analysed as re.match("..", x)
         counts: Dict[str, int] = {}
         for st in m.tree.body:
             if isinstance(st, ast.Assign):
@@ -678,7 +679,9 @@ def _inline_prebuilt_callables(program, known: Set[str]) -> List[str]:
                 continue
             if isinstance(val, ast.Call) and isinstance(val.func, ast.Name) and val.func.id in m.functions and all(isinstance(a, ast.Constant) for a in list(val.args) + [k.value for k in val.keywords]):
                 cands[name] = val
-        if not cands:
+            elif isinstance(val, ast.Call) and ast.unparse(val.func) == "re.compile" and len(val.args) == 1 and isinstance(val.args[0], ast.Constant) and not val.keywords:
+                regexes[name] = val.args[0]
+        if not cands and not regexes:
             continue
 
         class T(ast.NodeTransformer):
@@ -686,6 +689,13 @@ def _inline_prebuilt_callables(program, known: Set[str]) -> List[str]:
 
             def visit_Call(self, node):
                 self.generic_visit(node)
+                if isinstance(node.func, ast.Attribute) and isinstance(node.func.value, ast.Name) and node.func.value.id in regexes and node.func.attr in ("match", "fullmatch", "search", "sub", "subn", "split", "findall", "finditer"):
+                    T.hits += 1
+                    pat_ = copy.deepcopy(regexes[node.func.value.id])
+                    node.func = ast.copy_location(ast.Attribute(value=ast.Name(id="re", ctx=ast.Load()), attr=node.func.attr, ctx=ast.Load()), node.func)
+                    node.args = [pat_] + list(node.args)
+                    ast.fix_missing_locations(node)
+                    return node
                 if isinstance(node.func, ast.Name) and node.func.id in cands:
                     T.hits += 1
                     node.func = ast.copy_location(copy.deepcopy(cands[node.func.id]), node.func)
@@ -695,12 +705,12 @@ def _inline_prebuilt_callables(program, known: Set[str]) -> List[str]:
         for fi in list(program.functions.values()):
             if fi.module is m and fi.parent is None and not isinstance(fi.node, ast.Lambda):
                 local_stores = {x.id for x in ast.walk(fi.node) if isinstance(x, ast.Name) and isinstance(x.ctx, ast.Store)} | {a.arg for a in ast.walk(fi.node) if isinstance(a, ast.arg)}
-                if local_stores & set(cands):
+                if local_stores & (set(cands) | set(regexes)):
                     continue
                 before = T.hits
                 T().visit(fi.node)
                 if T.hits > before:
-                    log.append(f"{fi.qual}: uses of the module-level callable(s) {sorted(cands)} analysed as calls of their factory expression")
+                    log.append(f"{fi.qual}: uses of the module-level callable(s) / compiled pattern(s) {sorted(set(cands) | set(regexes))} analysed as calls of their defining expression")
     return log
 
 
